@@ -8,13 +8,16 @@ Since the repair of the data directives (single FCB / FDB values are fitted to t
 `fitWidth` after the address pass, negatives in two's complement, misfits refused; list elements likewise; RMB and
 ORG insist on a non-negative number; FCB FDB RMB ORG evaluate symbols and expressions) the property HOLDS at
 full strength on the operand level: `C05_full`.  What remains outside is recorded by the `C05_finding_*`
-theorems (symbols inside a LIST, empty list elements, the one-character FCC).  An FCC string is taken from the
+theorems (empty list elements, the one-character FCC).  Symbols, expressions and labels INSIDE a list are evaluated since
+the repair of finding C2 (model batch 8): section "symbols, expressions and labels inside a list" at the end
+(`C05_list_elem_*`, `C05_list_positions`, `C05_program_list_*`, `C05_finding_list_symbol_fixed`).  An FCC string is taken from the
 line as it was written (fix d74c37d): `C05_FCC_line_as_written`, `C05_finding_FCC_rebuilt_fixed`.
 -/
 import CoCoVerif.Lemmas.EncodeData
 import CoCoVerif.Lemmas.EncodeProgram
 import CoCoVerif.Lemmas.EncodeResolve
 import CoCoVerif.Lemmas.EncodeFccLine
+import CoCoVerif.Lemmas.EncodeLists
 
 namespace CoCo.Props
 open CoCo CoCo.Asm
@@ -276,14 +279,21 @@ theorem C05_FCB_signed_list (lits : List (Bool × Str)) (h2 : 2 ≤ lits.length)
   obtain ⟨e, he, rfl⟩ := List.mem_map.mp hv
   exact byteField_lt (hl e he).2
 
-/-- ... and the line is REFUSED as soon as one element is outside −128..255 (`FCB 1,300`, `FCB 1,-129`) -/
-theorem C05_FCB_signed_list_rejected (lits : List (Bool × Str)) (h2 : 2 ≤ lits.length)
-    (hl : ∀ e ∈ lits, IsDecLit e.2) {e : Bool × Str} (he : e ∈ lits) (hf : fitsByte (parseBase 10 e.2) e.1 = false) :
+/-- ... and the line is REFUSED when it is parsed as soon as one element THAT IS A NUMBER TO THE PARSER (`hn`: it has
+a minus sign or is below 65536) is outside −128..255 (`FCB 1,300`, `FCB 1,-129`).
+
+RESTATED after the repair of C2 (formerly `C05_FCB_signed_list_rejected`, without `hn`): an element that is not a literal
+is no longer refused at parse time, and an unsigned run of digits from 65536 on (`FCB 1,70000`) is not a literal to
+`Value.create_from_str` but a symbol name (`pendingElem_dec_big`; as in `C05_finding_FDB_70000_fixed`); such a line is
+refused when the list is evaluated (the symbol is undefined): `C05_program_list_big_literal`. -/
+theorem C05_FCB_signed_list_rejected_fixed (lits : List (Bool × Str)) (h2 : 2 ≤ lits.length)
+    (hl : ∀ e ∈ lits, IsDecLit e.2) {e : Bool × Str} (he : e ∈ lits) (hn : e.1 = true ∨ parseBase 10 e.2 < 65536)
+    (hf : fitsByte (parseBase 10 e.2) e.1 = false) :
     ∃ err, createOperand (joinWith ',' (lits.map sdec)) fcbRow = .error err := by
   obtain ⟨a, b, t', rfl⟩ : ∃ a b t', lits = a :: b :: t' := by
     match lits, h2 with
     | a :: b :: t', _ => exact ⟨a, b, t', rfl⟩
-  obtain ⟨err, herr⟩ := multi2_sdec_reject (a :: b :: t') h2 hl he hf
+  obtain ⟨err, herr⟩ := multi2_sdec_reject (a :: b :: t') h2 hl he hn hf
   exact ⟨err, createOperand_multiByte_reject (row := fcbRow) rfl rfl
     (contains_joinWith ',' (sdec a) (sdec b) (t'.map sdec)) herr⟩
 
@@ -304,13 +314,16 @@ theorem C05_FDB_signed_list (lits : List (Bool × Str)) (h2 : 2 ≤ lits.length)
   obtain ⟨e, he, rfl⟩ := List.mem_map.mp hv
   exact wordField_lt (hl e he).2
 
-theorem C05_FDB_signed_list_rejected (lits : List (Bool × Str)) (h2 : 2 ≤ lits.length)
-    (hl : ∀ e ∈ lits, IsDecLit e.2) {e : Bool × Str} (he : e ∈ lits) (hf : fitsWord (parseBase 10 e.2) e.1 = false) :
+/-- RESTATED like `C05_FCB_signed_list_rejected_fixed` (formerly `C05_FDB_signed_list_rejected`, without `hn`): what is
+left for FDB are the negatives below −32768 (`FDB 1,-32769`); `FDB 1,70000` is refused when the list is evaluated -/
+theorem C05_FDB_signed_list_rejected_fixed (lits : List (Bool × Str)) (h2 : 2 ≤ lits.length)
+    (hl : ∀ e ∈ lits, IsDecLit e.2) {e : Bool × Str} (he : e ∈ lits) (hn : e.1 = true ∨ parseBase 10 e.2 < 65536)
+    (hf : fitsWord (parseBase 10 e.2) e.1 = false) :
     ∃ err, createOperand (joinWith ',' (lits.map sdec)) fdbRow = .error err := by
   obtain ⟨a, b, t', rfl⟩ : ∃ a b t', lits = a :: b :: t' := by
     match lits, h2 with
     | a :: b :: t', _ => exact ⟨a, b, t', rfl⟩
-  obtain ⟨err, herr⟩ := multi4_sdec_reject (a :: b :: t') h2 hl he hf
+  obtain ⟨err, herr⟩ := multi4_sdec_reject (a :: b :: t') h2 hl he hn hf
   exact ⟨err, createOperand_multiWord_reject (row := fdbRow) rfl rfl rfl
     (contains_joinWith ',' (sdec a) (sdec b) (t'.map sdec)) herr⟩
 
@@ -602,8 +615,11 @@ example : LineEmits (str "1,-2,255,-128") fcbRow [1, 0xFE, 255, 0x80] :=
 example : LineEmits (str "1,-1") fdbRow [0, 1, 0xFF, 0xFF] :=
   C05_FDB_signed_list [(false, str "1"), (true, str "1")] (by decide) (by decide)
 example : ∃ err, createOperand (str "1,300") fcbRow = .error err :=
-  C05_FCB_signed_list_rejected [(false, str "1"), (false, str "300")] (by decide) (by decide)
-    (e := (false, str "300")) (by decide) (by decide)
+  C05_FCB_signed_list_rejected_fixed [(false, str "1"), (false, str "300")] (by decide) (by decide)
+    (e := (false, str "300")) (by decide) (by decide) (by decide)
+example : ∃ err, createOperand (str "1,-32769") fdbRow = .error err :=
+  C05_FDB_signed_list_rejected_fixed [(false, str "1"), (true, str "32769")] (by decide) (by decide)
+    (e := (true, str "32769")) (by decide) (by decide) (by decide)
 
 example : LineEmits (str "255") fcbRow [255] := C05_FCB_literal (x := str "255") (by decide) (by decide)
 example : LineEmits (str "-1") fcbRow [255] := C05_FCB_neg_literal (ds := str "1") (by decide) (by decide) (by decide)
@@ -704,9 +720,15 @@ theorem C05_finding_list_empty :
     lineResult (str "1,,3") fcbRow = some (2, some [1, 3]) ∧ lineResult (str "1,") fcbRow = some (1, some [1]) := by
   decide +kernel
 
-/-- STILL A FINDING (C2 remnant): a symbol or an expression INSIDE a list is refused (a single one is evaluated) -/
-theorem C05_finding_list_symbol :
-    lineResult (str "1,1+2") fcbRow = none ∧ lineResult (str "1+2") fcbRow = some (1, some [3]) := by decide +kernel
+/-- REPAIRED (formerly `C05_finding_list_symbol`: `lineResult (str "1,1+2") fcbRow = none`, a symbol or an expression
+INSIDE a list was refused): on the one-line level the element is accepted and holds its place with zeros (`lineResult`
+stops before the lists are evaluated); through `assemble` it is evaluated: `FCB 1,1+2` is `01 03`, and with
+`SYM EQU 7`, `FCB 1,SYM` is `01 07` -/
+theorem C05_finding_list_symbol_fixed (fs : Files) :
+    lineResult (str "1,1+2") fcbRow = some (2, some [1, 0]) ∧ lineResult (str "1+2") fcbRow = some (1, some [3]) ∧
+    (∃ a, assemble fs (["SYM EQU 7\n", " FCB 1,SYM\n"].map String.toList) = .ok a ∧ a.image = some [0x01, 0x07]) ∧
+    (∃ a, assemble fs ([" FCB 1,1+2\n"].map String.toList) = .ok a ∧ a.image = some [0x01, 0x03]) :=
+  ⟨by decide +kernel, by decide +kernel, progImage_sound (by decide +kernel) fs, progImage_sound (by decide +kernel) fs⟩
 
 /-- REPAIRED (fix dfad397; formerly the findings `C05_finding_FCC_tab*`): a TAB inside an FCC string is the
 byte `$09` like any other character -/
@@ -1004,6 +1026,218 @@ example : Rejects { kind := .pseudo, text := str "-1", value := .numeric 1 (some
 example : createOperand (str "-1") fcbRow =
     .ok { kind := .pseudo, text := str "-1", value := .numeric 1 (some 4) .extended true } := rfl
 
+/-! ### symbols, expressions and labels INSIDE a list (repair of finding C2, model batch 8)
+
+When the line is parsed a list element that is not a literal but a symbol or a two-term expression is kept and holds its
+place with zeros (`multi` / `elemHexP`: `multi_ok_positions`); after the address pass `evalLists` replaces it by its
+value at the width of the directive (`evalElem`), literal positions keep their digits (`evalElems`).  The clauses of
+`C05_Statement` about lists (a value that IS a list of hex strings is emitted as it is) are untouched; the theorems
+below are the new clause.  Helpers: Lemmas/EncodeLists.lean. -/
+
+/-- what a list element of integer value `z` is meant to become under FCB: two hex digits, −128..255, a negative value in
+two's complement; anything else is a diagnostic -/
+def elemOf2 (z : Int) : Outcome Str := if -128 ≤ z ∧ z ≤ 255 then .ok (byteHex (z % 256).toNat) else .diag
+
+/-- ... and under FDB: four hex digits, −32768..65535 -/
+def elemOf4 (z : Int) : Outcome Str := if -32768 ≤ z ∧ z ≤ 65535 then .ok (wordHex (z % 65536).toNat) else .diag
+
+theorem renderAt2_eq (n : Nat) (neg : Bool) : renderAt 2 n neg = elemOf2 (signedOf n neg) := by
+  rw [renderAt_byte]
+  cases hf : fitsByte n neg
+  · cases neg <;> simp [fitsByte] at hf
+    · have c : ¬ (n : Int) ≤ 255 := by omega
+      simp [elemOf2, signedOf, c]
+    · have c : ¬ (-128 : Int) ≤ -(n : Int) := by omega
+      simp [elemOf2, signedOf, c]
+  · cases neg <;> simp [fitsByte] at hf
+    · have e : ((n : Int) % 256).toNat = n := by omega
+      have c : (-128 : Int) ≤ n ∧ (n : Int) ≤ 255 := by omega
+      simp [elemOf2, signedOf, byteField, c, e]
+    · have e : ((-(n : Int)) % 256).toNat = (256 - n) % 256 := by omega
+      have c : (-128 : Int) ≤ -(n : Int) ∧ -(n : Int) ≤ 255 := by omega
+      simp [elemOf2, signedOf, byteField, c, e]
+
+theorem renderAt4_eq (n : Nat) (neg : Bool) : renderAt 4 n neg = elemOf4 (signedOf n neg) := by
+  rw [renderAt_word]
+  cases hf : fitsWord n neg
+  · cases neg <;> simp [fitsWord] at hf
+    · have c : ¬ (n : Int) ≤ 65535 := by omega
+      simp [elemOf4, signedOf, c]
+    · have c : ¬ (-32768 : Int) ≤ -(n : Int) := by omega
+      simp [elemOf4, signedOf, c]
+  · cases neg <;> simp [fitsWord] at hf
+    · have e : ((n : Int) % 65536).toNat = n := by omega
+      have c : (-32768 : Int) ≤ n ∧ (n : Int) ≤ 65535 := by omega
+      simp [elemOf4, signedOf, wordField, c, e]
+    · have e : ((-(n : Int)) % 65536).toNat = (65536 - n) % 65536 := by omega
+      have c : (-32768 : Int) ≤ -(n : Int) ∧ -(n : Int) ≤ 65535 := by omega
+      simp [elemOf4, signedOf, wordField, c, e]
+
+/-- **C05, a list element with a numeric value, FCB**: whatever the element text `x` is (a symbol, an expression of
+constants such as `S*2`), if `resolve` yields the number `n` (sign `neg`) the element becomes the two's complement byte of
+that number when −128 ≤ n ≤ 255, and the list is refused otherwise -/
+theorem C05_list_elem_value_FCB {ss : List Stmt} {t : SymTab} {x : Str} {v : Value} {n : Nat} {h : Option Nat} {m : Mode}
+    {neg : Bool} (hc : create 4 x false false true = .ok v) (hr : v.resolve t = .ok (.numeric n h m neg)) :
+    evalElem ss t 2 x = elemOf2 (signedOf n neg) := by
+  rw [evalElem_numeric hc hr, renderAt2_eq]
+
+/-- **… FDB**: the two's complement word when −32768 ≤ n ≤ 65535, refused otherwise -/
+theorem C05_list_elem_value_FDB {ss : List Stmt} {t : SymTab} {x : Str} {v : Value} {n : Nat} {h : Option Nat} {m : Mode}
+    {neg : Bool} (hc : create 4 x false false true = .ok v) (hr : v.resolve t = .ok (.numeric n h m neg)) :
+    evalElem ss t 4 x = elemOf4 (signedOf n neg) := by
+  rw [evalElem_numeric hc hr, renderAt4_eq]
+
+theorem signedOf_negZero (v : Nat) (neg : Bool) : signedOf v (neg && decide (0 < v)) = signedOf v neg := by
+  cases neg
+  · rfl
+  · by_cases h0 : 0 < v
+    · simp [h0]
+    · have : v = 0 := by omega
+      subst this
+      simp [signedOf]
+
+/-- **C05, a SYMBOL in an FCB list** (`SYM EQU n` … `FCB 1,SYM`): `x` is read as the symbol `name` (`hc`; what
+`createV_sym` of Lemmas/FrontEndSymbol.lean shows for every symbol name), the table binds it to the constant `v` with
+sign `neg` -/
+theorem C05_list_elem_symbol_FCB {ss : List Stmt} {t : SymTab} {x name : Str} {mo : Mode} {v : Nat} {h : Option Nat}
+    {m : Mode} {neg : Bool} (hc : create 4 x false false true = .ok (.symbol name mo))
+    (ht : t.get? name = some (.numeric v h m neg)) (hlt : v < 65536) :
+    evalElem ss t 2 x = elemOf2 (signedOf v neg) := by
+  obtain ⟨h', m', hr⟩ := resolve_symbol_numeric (mo := mo) ht hlt
+  rw [C05_list_elem_value_FCB hc hr, signedOf_negZero]
+
+/-- **C05, a symbol in an FDB list** -/
+theorem C05_list_elem_symbol_FDB {ss : List Stmt} {t : SymTab} {x name : Str} {mo : Mode} {v : Nat} {h : Option Nat}
+    {m : Mode} {neg : Bool} (hc : create 4 x false false true = .ok (.symbol name mo))
+    (ht : t.get? name = some (.numeric v h m neg)) (hlt : v < 65536) :
+    evalElem ss t 4 x = elemOf4 (signedOf v neg) := by
+  obtain ⟨h', m', hr⟩ := resolve_symbol_numeric (mo := mo) ht hlt
+  rw [C05_list_elem_value_FDB hc hr, signedOf_negZero]
+
+/-- **C05, a LABEL in an FDB list** (a jump table: `FDB L1,L2`): the table entry of a label is the index `j` of its
+statement; the element becomes the address `a` of that statement, high byte first -/
+theorem C05_list_elem_label_FDB {ss : List Stmt} {t : SymTab} {x name : Str} {mo m : Mode} {j a : Nat} {h : Option Nat}
+    {m' : Mode} (hc : create 4 x false false true = .ok (.symbol name mo)) (ht : t.get? name = some (.address j m))
+    (ha : addrOf ss j = some (.numeric a h m' false)) :
+    evalElem ss t 4 x = if a ≤ 65535 then .ok (wordHex a) else .diag := by
+  rw [evalElem_address hc (resolve_symbol_address ht) ha, renderAt_word]
+  simp [fitsWord, wordField]
+
+/-- **C05, a label in an FCB list**: the address if it fits a byte, refused otherwise -/
+theorem C05_list_elem_label_FCB {ss : List Stmt} {t : SymTab} {x name : Str} {mo m : Mode} {j a : Nat} {h : Option Nat}
+    {m' : Mode} (hc : create 4 x false false true = .ok (.symbol name mo)) (ht : t.get? name = some (.address j m))
+    (ha : addrOf ss j = some (.numeric a h m' false)) :
+    evalElem ss t 2 x = if a ≤ 255 then .ok (byteHex a) else .diag := by
+  rw [evalElem_address hc (resolve_symbol_address ht) ha, renderAt_byte]
+  simp [fitsByte, byteField]
+
+/-- **C05, a LABEL EXPRESSION in a list** (`L1+1`, `L2-L1`): if `resolve` yields a label expression, the element is
+`calculate_address_offset` on the final addresses (`addrOffset`), rendered at the width of the directive (`renderAt`:
+`renderAt2_eq`, `renderAt4_eq`); a failure of the offset (a division by zero, a result above 65535) refuses the list -/
+theorem C05_list_elem_label_expr {ss : List Stmt} {t : SymTab} {w : Nat} {x : Str} {v l r : Value} {op : Char} {mo : Mode}
+    (hc : create 4 x false false true = .ok v) (hr : v.resolve t = .ok (.expr l r op mo true)) :
+    evalElem ss t w x =
+      (match addrOffset ss (.expr l r op mo true) with
+       | .ok (.numeric n _ _ neg) => renderAt w n neg
+       | .ok _ => .diag
+       | .diag => .diag
+       | .internal => .internal
+       | .diverged => .diverged) :=
+  evalElem_addrExpr hc hr
+
+/-- **C05, an UNDEFINED symbol in a list**: refused, whatever the width -/
+theorem C05_list_elem_undefined {ss : List Stmt} {t : SymTab} {w : Nat} {x name : Str} {mo : Mode}
+    (hc : create 4 x false false true = .ok (.symbol name mo)) (ht : t.get? name = none) :
+    evalElem ss t w x = .diag :=
+  evalElem_resolve_error hc (resolve_symbol_undefined ht)
+
+/-- **C05, the list position by position**: for a list of element texts `xs` with the digits `hs` stored when the line
+was parsed (same length: `multi_ok_positions`), the evaluation succeeds with `r` exactly when `r` has one entry per
+element, every PENDING element (a symbol or an expression that is not a literal) evaluates to its entry, and every
+LITERAL position keeps its digits -/
+theorem C05_list_positions {ss : List Stmt} {t : SymTab} {w : Nat} {xs hs r : List Str} (hl : xs.length = hs.length) :
+    evalElems ss t w xs hs = .ok r ↔
+      r.length = xs.length ∧
+      ∀ i (hi : i < xs.length) (hh : i < hs.length) (hr : i < r.length),
+        (isPending w xs[i] = true → evalElem ss t w xs[i] = .ok r[i]) ∧ (isPending w xs[i] = false → r[i] = hs[i]) := by
+  have key : ∀ (x h v : Str), elemFinal ss t w x h = .ok v ↔
+      (isPending w x = true → evalElem ss t w x = .ok v) ∧ (isPending w x = false → v = h) := by
+    intro x h v
+    unfold elemFinal
+    cases hp : isPending w x
+    · simp only [Bool.false_eq_true, if_false, Outcome.ok.injEq, false_imp_iff, true_and, forall_const]
+      exact eq_comm
+    · simp
+  constructor
+  · intro he
+    obtain ⟨hlen, hpos⟩ := encl_evalElems_ok xs hs r hl he
+    exact ⟨hlen, fun i hi hh hr => (key _ _ _).mp (hpos i hi hh hr)⟩
+  · rintro ⟨hlen, hpos⟩
+    exact evalElems_of_forall xs hs r hl hlen (fun i hi hh hr => (key _ _ _).mpr (hpos i hi hh hr))
+
+/-- **C05, a list of literals only** is left exactly as it was parsed (nothing changed for such lists) -/
+theorem C05_list_literals_unchanged {ss : List Stmt} {t : SymTab} {w : Nat} {xs hs : List Str}
+    (hl : xs.length = hs.length) (hp : ∀ x ∈ xs, isPending w x = false) : evalElems ss t w xs hs = .ok hs :=
+  evalElems_literals xs hs hl hp
+
+/-- **C05, one element without a value refuses the list**: if a pending element does not evaluate (an undefined symbol,
+a value that does not fit, a division by zero), the evaluation of the list does not succeed -/
+theorem C05_list_refused {ss : List Stmt} {t : SymTab} {w : Nat} {xs hs : List Str} (hl : xs.length = hs.length)
+    {i : Nat} (hi : i < xs.length) (hp : isPending w xs[i] = true) (hne : ∀ v, evalElem ss t w xs[i] ≠ .ok v) :
+    ∀ r, evalElems ss t w xs hs ≠ .ok r :=
+  evalElems_not_ok_of_mem xs hs hl i hi (by omega) (fun v => by simpa [elemFinal, hp] using hne v)
+
+/-- the hypotheses are met: `SYM` is read as a symbol, `SYM` and `SYM+1` are pending, `7`, `'A` and `300` are not -/
+theorem create_SYM : create 4 (str "SYM") false false true = .ok (.symbol (str "SYM") .extended) := rfl
+example : isPending 2 (str "SYM") = true ∧ isPending 4 (str "SYM+1") = true ∧ isPending 2 (str "7") = false ∧
+    isPending 2 (str "'A") = false ∧ isPending 2 (str "300") = false := by decide +kernel
+
+/-- `FCB 1,SYM` with `SYM EQU 7` in the table: the element `SYM` becomes `07`; with `SYM EQU 300` it is refused; with
+`SYM EQU -2` it is `FE`; as a label at `$2000` under FDB it is `2000` -/
+example (ss : List Stmt) : evalElem ss [(str "SYM", .numeric 7 (some 4) .extended false)] 2 (str "SYM") = .ok (str "07") :=
+  (C05_list_elem_symbol_FCB (v := 7) create_SYM rfl (by decide)).trans (by decide +kernel)
+example (ss : List Stmt) : evalElem ss [(str "SYM", .numeric 300 (some 4) .extended false)] 2 (str "SYM") = .diag :=
+  (C05_list_elem_symbol_FCB (v := 300) create_SYM rfl (by decide)).trans (by decide +kernel)
+example (ss : List Stmt) : evalElem ss [(str "SYM", .numeric 2 (some 4) .extended true)] 2 (str "SYM") = .ok (str "FE") :=
+  (C05_list_elem_symbol_FCB (v := 2) create_SYM rfl (by decide)).trans (by decide +kernel)
+example (s : Stmt) : evalElem [{ s with pkg := { s.pkg with address := .numeric 0x2000 (some 4) .extended false } }]
+    [(str "SYM", .address 0 .none)] 4 (str "SYM") = .ok (str "2000") :=
+  (C05_list_elem_label_FDB (a := 0x2000) create_SYM rfl rfl).trans (by decide +kernel)
+
+/-! #### whole programs through `assemble` (kernel-checked, for every host file system) -/
+
+/-- **a jump table**: `T FDB L1,L2,T,$1234,L1+1,L2-L1` at `$2000` — labels behind the table (forward references), the
+label of the table itself, a literal, a label plus a constant, a difference of labels -/
+theorem C05_program_list_labels (fs : Files) :
+    ∃ a, assemble fs (prog [" ORG $2000\n", "T FDB L1,L2,T,$1234,L1+1,L2-L1\n", "L1 NOP\n", "L2 RTS\n"]) = .ok a ∧
+      a.image = some [0x20, 0x0C, 0x20, 0x0D, 0x20, 0x00, 0x12, 0x34, 0x20, 0x0D, 0x00, 0x01, 0x12, 0x39] :=
+  progImage_sound (by decide +kernel) fs
+
+/-- **EQU constants in lists**: with `S EQU 7`, `FCB 1,S,S*2,'A,S+1` is `01 07 0E 41 08` and `FDB S,1,S-8` is
+`00 07 00 01 FF FF` -/
+theorem C05_program_list_symbols (fs : Files) :
+    ∃ a, assemble fs (prog ["S EQU 7\n", " FCB 1,S,S*2,'A,S+1\n", " FDB S,1,S-8\n"]) = .ok a ∧
+      a.image = some [0x01, 0x07, 0x0E, 0x41, 0x08, 0x00, 0x07, 0x00, 0x01, 0xFF, 0xFF] :=
+  progImage_sound (by decide +kernel) fs
+
+/-- **what is refused**: a label that does not fit a byte, an undefined symbol, a constant that does not fit a byte
+(defined after its use), a division by zero -/
+theorem C05_program_list_rejected (fs : Files) :
+    assemble fs (prog [" ORG $100\n", "L NOP\n", " FCB 1,L\n"]) = .diag ∧
+    assemble fs (prog [" FCB 1,UNDEF\n"]) = .diag ∧
+    assemble fs (prog [" FCB 1,S\n", "S EQU 300\n"]) = .diag ∧
+    assemble fs (prog [" FDB 5/Z,1\n", "Z EQU 0\n"]) = .diag :=
+  ⟨progDiag_sound (by decide +kernel) fs, progDiag_sound (by decide +kernel) fs, progDiag_sound (by decide +kernel) fs,
+   progDiag_sound (by decide +kernel) fs⟩
+
+/-- an unsigned run of digits from 65536 on inside a list (`FCB 1,70000`, `FDB 1,70000`) is a symbol name to the parser
+and is refused when the list is evaluated (no such symbol); a negative literal below the range is refused at once
+(`C05_FDB_signed_list_rejected_fixed`) — a diagnostic either way -/
+theorem C05_program_list_big_literal (fs : Files) :
+    assemble fs (prog [" FCB 1,70000\n"]) = .diag ∧ assemble fs (prog [" FDB 1,70000\n"]) = .diag ∧
+    assemble fs (prog [" FDB 1,-32769\n"]) = .diag :=
+  ⟨progDiag_sound (by decide +kernel) fs, progDiag_sound (by decide +kernel) fs, progDiag_sound (by decide +kernel) fs⟩
+
 end CoCo.Props
 
 section axioms
@@ -1016,4 +1250,12 @@ open CoCo.Props
 #print axioms C05_FCC_line_as_written
 #print axioms C05_finding_FCC_rebuilt_fixed
 #print axioms C05_program_FCC_as_written
+#print axioms C05_finding_list_symbol_fixed
+#print axioms C05_list_elem_symbol_FCB
+#print axioms C05_list_elem_label_FDB
+#print axioms C05_list_positions
+#print axioms C05_program_list_labels
+#print axioms C05_program_list_symbols
+#print axioms C05_program_list_rejected
+#print axioms C05_FCB_signed_list_rejected_fixed
 end axioms
